@@ -306,3 +306,44 @@ class C02(ZooProp):
     min_eval = 5000
     level_text = ("Generated stacks x generated inputs against an independent reference interpreter with exact equality on a domain where all "
                   "arithmetic is exact; adjacency-pair coverage of the grammar in the quick tier.")
+
+
+@prop("C06")
+class C06(ZooProp):
+    pid = "C06"
+    mode = "C06"
+    rule = ("cases = (serialisable stack from the grammar cover: array, constant, identity, row-major, Morton, Hilbert, clamp, default, affine, "
+            "permutation, cast, dereference, both interpolators; extents 1..7 incl. 1 and non-powers of two; storage and every configuration scalar = "
+            "arbitrary bit patterns biased to +-0, +-inf, quiet/signalling NaN payloads, subnormals, integer extremes). Oracle: the dump parses under "
+            "the independent reference grammar with no trailing bytes and carries exactly the generated configuration words and payload; the "
+            "reference printer reproduces the dump byte-for-byte; load(dump) has word-identical configurations at every layer and bit-identical "
+            "storage and consumes exactly the dump; dump(load(dump)) == dump. non-trivial = payload contains a non-finite or subnormal pattern or a "
+            "configuration differs from all-zero; distinct by dump bytes")
+    min_eval = 3000
+    level_text = ("Round-trip property over generated stacks and adversarial bit patterns, tied to an independent reference parser/printer of the file "
+                  "format so that a self-consistent but wrong writer/reader pair is visible.")
+
+
+@prop("C17")
+class C17(ZooProp):
+    pid = "C17"
+    mode = "C17"
+    rule = ("zoo part: (stack from the grammar cover, generated configurations per layer, storage, coordinates) -> get_configuration()/get_backend() "
+            "walked from the outside must yield the generated configuration layer by layer; a field rebuilt from the reported configurations and the "
+            "innermost storage reports the same configurations, dumps to the same bytes, holds the same storage and agrees at the generated in-domain "
+            "coordinates. helper part: make_parameter_pack_for<F>(a0..a_{d-1}) for stacks of depth 1..10 built from clamp/backup/shuffle/dereference/"
+            "cast/affine/nearest/strided layers, every argument derived from its own generated integer; layer i must report argument i. "
+            "non-trivial = two layers of the same configuration type received different values; distinct by configuration words")
+    min_eval = 3000
+    level_text = ("Generated stacks and configurations against the generator's own record of what was passed to each layer; helper overloads of every "
+                  "depth 1..10 exercised with pairwise different arguments.")
+
+    def harnesses(self, tier, seed=1):
+        return super().harnesses(tier, seed) + [H("prop_C17_helper", "prop_C17.cpp", shards=4)]
+
+
+from . import c13 as _c13  # noqa: E402
+
+ENGINES.append({"name": "E3", "path": "vlib/e3.py + vlib/c13.py + vlib/c20.py + harness/api_all.hpp", "serves_properties": [],
+                "kind_free_text": "program generation with the compiler's verdict / compile-time result tables as oracle"})
+REG["C13"] = _c13.C13()
